@@ -71,4 +71,12 @@ theorem C07_exit_from_status (s : Status) (m : Cli.Mode) :
     Cli.validateExit m [.evaluated [some s]] = .code (if s = .fail then 19 else 0) := by
   cases s <;> cases m <;> decide
 
+/-- **every entry point hands the text of a data source to the loader in the same way**: the files of `--data`,
+    the document on STDIN, the entries of `--payload` and the `--input-parameters` files all reach `build_data_file`
+    through the same expression (generated from validate.rs on every run) - an entry point that trims, re-encodes or
+    otherwise edits its text before loading breaks this obligation -/
+theorem C07_entry_points_pass_text_alike :
+    2 ≤ Gen.dataTextArgs.length ∧ Gen.dataTextArgs.eraseDups.length = 1 := by
+  decide
+
 end Guard.C07
